@@ -177,10 +177,17 @@ public:
     }
     void destroyTree() override { tree.reset(); tv = TreeView(); }
     void makeAlgo() override {
-        if constexpr (Cfg::kernelCtorOnly) { PK proto = Cfg::template make<PK>(*conf); algo.reset(new Algo(*conf, proto, sc.upper)); }
-        else {
-            if (sc.ctorWithKernel) { PK proto = Cfg::template make<PK>(*conf); algo.reset(new Algo(*conf, proto, sc.upper)); }
-            else algo.reset(AlgoHooks<Algo>::create(*conf, sc.upper));
+        // four ways to build an executor: (configuration | configuration + kernel) x (explicit upper level | default)
+        if constexpr (Cfg::kernelCtorOnly) {
+            PK proto = Cfg::template make<PK>(*conf);
+            if (sc.upperDefault) algo.reset(new Algo(*conf, proto)); else algo.reset(new Algo(*conf, proto, sc.upper));
+        } else {
+            if (sc.ctorWithKernel) {
+                PK proto = Cfg::template make<PK>(*conf);
+                if (sc.upperDefault) algo.reset(new Algo(*conf, proto)); else algo.reset(new Algo(*conf, proto, sc.upper));
+            } else {
+                if (sc.upperDefault) algo.reset(new Algo(*conf)); else algo.reset(AlgoHooks<Algo>::create(*conf, sc.upper));
+            }
         }
         if constexpr (Cfg::periodic) { if (sc.topLevels >= -1) top.reset(new Top(*conf, sc.topLevels)); }
     }
